@@ -82,10 +82,12 @@ class SwitchNode(Node):
             if key in fast:
                 return
 
-            fast[key] = (len(unresolved), value)
+            # (position among the unresolved keys, position among the resolved keys, value):
+            # candidates are ranked by source order, never by comparing their values
+            fast[key] = (len(unresolved), len(fast), value)
             num_key = maybe_numeric(key)
             if num_key is not None and num_key not in fast:
-                fast[num_key] = (len(unresolved), value)
+                fast[num_key] = (len(unresolved), len(fast), value)
         else:
             unresolved.append((key, value))
 
@@ -118,7 +120,7 @@ class SwitchNode(Node):
 
         self.unresolved = tuple(unresolved)
         self.fast = fast
-        self.sentinel = (len(self.unresolved) + 1, None)
+        self.sentinel = (len(self.unresolved) + 1, len(fast), None)
 
     def flatten(self, expander, variables, res):
         from mwlib.parser.templ.evaluate import flatten, dummy_mark, insert_implicit_newlines, maybe_newline
@@ -135,7 +137,7 @@ class SwitchNode(Node):
         t1 = self.fast.get(val, self.sentinel)
         t2 = self.fast.get(num_val, self.sentinel)
 
-        pos, retval = min(t1, t2)
+        pos, _, retval = min(t1, t2, key=lambda t: t[:2])
 
         if pos is None:
             pos = len(self.unresolved) + 1
@@ -155,7 +157,7 @@ class SwitchNode(Node):
             for a in expander.aliasmap.get_aliases("default") or ["#default"]:
                 retval = self.fast.get(a)
                 if retval is not None:
-                    retval = retval[1]
+                    retval = retval[2]
                     break
             retval = retval or ""
 
